@@ -166,7 +166,8 @@ CHECKS = {
         "succeed; malformed file names are rejected. The four inference strategies, from_first_in and the nested-root validation are "
         "transcribed (NeverWrongIdentity, PromisedSucceeds hold on the model; as-found configs give the F8 counterexamples) and the "
         "model's outcome is compared with the real outcome for every combination.",
-   note="One root with a second root before / after; root names unique except for one nested directory named like the root. "
+   note="The tree lives below a directory named like the root in another letter case; nested files are read again with the inner "
+        "directory as root in the same process. One root with a second root before / after; root names unique except for one nested directory named like the root. "
         "int() leniency in file names is not judged.",
    technique="TLA+ declarative identity/promise spec enumerated by TLC; every state executed against read_files/read_namespace",
    design="4 C15"),
@@ -198,7 +199,8 @@ CHECKS = {
         "three float formats, bool) with ~100 symbolic values each around both ends of every range (s*2^e + o + 1/3, largest "
         "finite float +- 1/3, every string of up to two characters over seven character classes, booleans, sets); the exponent arithmetic is validated against plain integers up to 24 "
         "bits. Each pair is rendered with an exact expression and read; accepted iff Compliant and the stored value exact.",
-   note="Trusts C04 for the exactness of the boundary expressions.",
+   note="A fixed list of literal forms (negative exponents, digit separators, bases) must be stored as the exact rational they denote. "
+        "Cases meet in the worker processes in a seeded random order. Trusts C04 for the exactness of the boundary expressions.",
    technique="TLA+ compliance predicate on symbolic boundary values enumerated by TLC; every pair read by pydsdl",
    design="4 C12"),
  "C13": dict(
@@ -219,7 +221,8 @@ CHECKS = {
         "of object (structure, union, delimited and its inner type, service and its request) - changes an object's projection. Both objects of each pair are built "
         "independently and ==, !=, hash, Field and BitLengthSet equality compared; objects are re-compared with fresh ones "
         "after use; pickling round-trips; accessor histories are replayed.",
-   note="byte / utf8 and service types are outside the enumerated universe; expression values and bit length sets are "
+   note="Objects that were used here are also pickled (protocols 2 and highest) and unpickled in another interpreter with another "
+        "hash seed, where they must equal - and hash like - freshly read ones. byte / utf8 and service types are outside the enumerated universe of pairs; expression values and bit length sets are "
         "compared over fixed / random lists by the harness.",
    technique="TLA+ equality-by-key and aliasing machine checked by TLC; every pair / history replayed on real objects",
    design="4 C18"),
